@@ -54,6 +54,9 @@ func genC03(seed uint64, i int, tier string) *Scenario {
 	}
 	style := pick(r, []string{StoreMixed, StoreInts, StoreNum, StoreText, StoreJSON, StoreMixed, StoreCollide, StoreUnicode, StoreBytes})
 	g := newGen(r, style)
+	if r.Chance(0.05) {
+		g.keyListWhere = r.Range(1, 2)
+	}
 	b := pickBatch(r)
 	sc := &Scenario{Cfg: Config{Batch: b, Cache: r.Bool(), Alias: r.Chance(0.3), Lazy: r.Chance(0.3)}}
 	sc.Init = genStoreFor(r, b, style)
